@@ -14,7 +14,7 @@ def REGEN(ctx):
     vlib.regen_errno(ctx)
 
 WRAP = ("-Wl,--wrap=pthread_create,--wrap=pthread_attr_setstacksize,--wrap=pthread_attr_init,"
-        "--wrap=pthread_attr_destroy,--wrap=pthread_join")
+        "--wrap=pthread_attr_destroy,--wrap=pthread_join,--wrap=sem_post")
 RULE = ("S: requested sizes from a boundary set (0, 1, PTHREAD_STACK_MIN+-1, 64K..32M, default+-1, 2^32, 2^40, random) x "
         "pthread_create results (0, every errno of the mapping, unmapped ones, random) x attr_init results, setstacksize "
         "result following glibc's rule; J: join results; T: real threads, sizes 128K..32M x 1..64 (256 thorough) "
@@ -48,8 +48,11 @@ def _stale(target, sources):
 
 
 def build(ctx):
-    ctx.build_driver("drv_c18", ["posix/thread_posix.c", "errno_status.c", "system.c", "posix/system_posix.c", "allocator.c",
-                                 "status.c"], flags=[WRAP])
+    # every portable and POSIX source of the library is linked: thread_posix.c may come to use other modules
+    src = os.path.join(vlib.REPO, "src")
+    allsrc = sorted(f for f in os.listdir(src) if f.endswith(".c")) + \
+        sorted("posix/" + f for f in os.listdir(os.path.join(src, "posix")) if f.endswith(".c"))
+    ctx.build_driver("drv_c18", allsrc, flags=[WRAP])
     exe = os.path.join(vlib.OCAML_BUILD, "drv_c18")
     srcs = [os.path.join(vlib.COQ, f) for f in ("SemErrnoModel.v", "ThreadModel.v", "ExtractC18.v")]
     srcs.append(os.path.join(vlib.VERIF, "ocaml", "drv_c18.ml"))
@@ -112,10 +115,23 @@ def targeted(ctx):
 
 
 def run_impl(ctx, cases):
-    rc, out, err = ctx.run_lines([ctx.path("drv_c18")], cases, timeout=900)
-    if rc != 0 or len(out) < len(cases):
+    """a case that kills the driver (sanitizer report, per-case alarm: a call that never returns) gets a CRASH line;
+    the run resumes after it"""
+    out, todo, restarts = [], list(cases), 0
+    while todo:
+        rc, o, err = ctx.run_lines([ctx.path("drv_c18")], todo, timeout=900)
+        o = o[:len(todo)]
+        out += o
+        todo = todo[len(o):]
+        if not todo:
+            break
         first = err.strip().split("\n")[0][:200] if err.strip() else ""
-        out = out + ["CRASH rc=%d %s" % (rc, first)] * (len(cases) - len(out))
+        out.append("CRASH rc=%d %s" % (rc, first))
+        todo = todo[1:]
+        restarts += 1
+        if restarts > 25:
+            out += ["CRASH rc=%d (too many restarts)" % rc] * len(todo)
+            break
     return out
 
 
